@@ -215,9 +215,9 @@ Proof.
 Qed.
 
 (* the invariant, for every reachable state *)
-Theorem ctl_reach c fut s : reach c fut s -> Ctl s.
+Theorem ctl_mreach c fut s : mreach c fut s -> Ctl s.
 Proof.
-  apply reach_inv.
+  apply mreach_inv.
   - (* begin_call *)
     intros s0 a A cl pc I EA Hpc Hal He _ b B EB.
     unfold begin_call in EB. cbn [ags] in EB. rewrite get_put in EB.
@@ -252,3 +252,6 @@ Proof.
     destruct (N.eqb a 0); [injection EA as <-; destruct fut; reflexivity|].
     destruct (N.eqb a 1); [injection EA as <-; destruct fut; reflexivity|discriminate].
 Qed.
+
+Theorem ctl_reach c fut s : reach c fut s -> Ctl s.
+Proof. intros R. apply (ctl_mreach c fut). now apply reach_mreach. Qed.
